@@ -18,35 +18,42 @@ section unminedCredit
 variable (s : Store) (addrs : List Addr)
 
 theorem unminedCredit_proj {γ : Type} (p : Store → γ)
-    (hp : ∀ (s : Store) (k : TxId × Nat), p { s with pendIns := AMap.erase s.pendIns k } = p s)
     (hq : ∀ (s : Store) (m : AMap.T (TxId × Nat) Credit), p { s with pendCred := m } = p s) :
     p (removeRelevantUnminedCredit s addrs).1 = p s := by
   unfold removeRelevantUnminedCredit
-  simp only
-  rw [foldl_proj (fun (s : Store) (e : (TxId × Nat) × Credit) => { s with pendIns := AMap.erase s.pendIns e.1 })
-    p (fun b a => hp b a.1)]
   exact hq s _
 
 theorem unminedCredit_core : core (removeRelevantUnminedCredit s addrs).1 = core s :=
-  unminedCredit_proj s addrs core (fun _ _ => rfl) (fun _ _ => rfl)
+  unminedCredit_proj s addrs core (fun _ _ => rfl)
 theorem unminedCredit_cd : cd (removeRelevantUnminedCredit s addrs).1 = cd s :=
-  unminedCredit_proj s addrs cd (fun _ _ => rfl) (fun _ _ => rfl)
+  unminedCredit_proj s addrs cd (fun _ _ => rfl)
 theorem unminedCredit_recs : recs (removeRelevantUnminedCredit s addrs).1 = recs s :=
-  unminedCredit_proj s addrs recs (fun _ _ => rfl) (fun _ _ => rfl)
+  unminedCredit_proj s addrs recs (fun _ _ => rfl)
 theorem unminedCredit_pending : (removeRelevantUnminedCredit s addrs).1.pending = s.pending :=
-  unminedCredit_proj s addrs Store.pending (fun _ _ => rfl) (fun _ _ => rfl)
+  unminedCredit_proj s addrs Store.pending (fun _ _ => rfl)
 
 theorem unminedCredit_pendCred :
     (removeRelevantUnminedCredit s addrs).1.pendCred = s.pendCred.filter (fun e => !addrs.contains e.2.sh) := by
   unfold removeRelevantUnminedCredit
-  simp only
-  rw [foldl_proj (fun (s : Store) (e : (TxId × Nat) × Credit) => { s with pendIns := AMap.erase s.pendIns e.1 })
-    Store.pendCred (fun _ _ => rfl)]
+  rfl
 end unminedCredit
 
--- removeUnminedTxs: touches pending only
+/-- removeUnminedInputsOf touches the unmined-input marks only -/
+theorem removeUnminedInputsOf_proj {γ : Type} (p : Store → γ)
+    (hi : ∀ (s : Store) (m : AMap.T (TxId × Nat) (List TxId)), p { s with pendIns := m } = p s)
+    (s : Store) (tx : Tx) : p (removeUnminedInputsOf s tx) = p s := by
+  unfold removeUnminedInputsOf
+  refine foldl_proj _ p ?_ _ s
+  intro b a
+  split
+  · dsimp only
+    split <;> exact hi _ _
+  · rfl
+
+-- removeUnminedTxs: touches pending and the unmined-input marks only
 theorem unminedTxs_proj {γ : Type} (p : Store → γ)
     (hp : ∀ (s : Store) (m : AMap.T TxId Tx), p { s with pending := m } = p s)
+    (hi : ∀ (s : Store) (m : AMap.T (TxId × Nat) (List TxId)), p { s with pendIns := m } = p s)
     (own : Own) (s : Store) (addrs : List Addr) (hs : List TxId) :
     p (removeUnminedTxs own s addrs hs).1 = p s := by
   unfold removeUnminedTxs
@@ -55,8 +62,10 @@ theorem unminedTxs_proj {γ : Type} (p : Store → γ)
   unfold unminedStep
   split
   · rfl
-  · split
-    · exact hp _ _
+  · rename_i tx _
+    split
+    · show p { removeUnminedInputsOf b.1 tx with pending := _ } = p b.1
+      rw [hp, removeUnminedInputsOf_proj p hi]
     · rfl
 
 -- removeMinedTxs: touches txrecs only
@@ -112,12 +121,13 @@ theorem scan_recs_pending (limit : Nat) (s : Store) (addrs : List Addr) :
 
 /-- the pieces RemoveRelevantTx is made of, named -/
 structure Pipeline (limit : Nat) (c : Ctx) (s : Store) (addrs : List Addr) (o : StepOut) : Prop where
-  ex : ∃ (uh : List TxId) (del1 : List TxId) (s2 : Store) (del2 : List (Nat × TxId)),
+  ex : ∃ (uh : List TxId) (del1 : List TxId) (del3 : List TxId) (s2 : Store) (del2 : List (Nat × TxId)),
     let s0 := (removeRelevantUnminedCredit s addrs).1
     let s1 := (removeUnminedTxs c.own s0 addrs uh).1
     let sc := removeRelevantCredit limit s1 addrs
-    sc.failed = false ∧ removeMinedTxs c sc.s addrs sc.heightOf = some (s2, del2) ∧
-    o = ⟨checkBlockRecords s2 del2, del1 ++ del2.map (·.2), sc.finish⟩
+    let s1' := (removeUnminedTxs c.own sc.s addrs sc.spenders).1
+    sc.failed = false ∧ removeMinedTxs c s1' addrs sc.heightOf = some (s2, del2) ∧
+    o = ⟨checkBlockRecords s2 del2, del1 ++ del3 ++ del2.map (·.2), sc.finish⟩
 
 theorem removeRelevantTx_pipeline (limit : Nat) (c : Ctx) (s : Store) (addrs : List Addr) (o : StepOut)
     (hne : addrs ≠ []) (h : removeRelevantTx limit c s addrs = some o) : Pipeline limit c s addrs o := by
@@ -131,7 +141,7 @@ theorem removeRelevantTx_pipeline (limit : Nat) (c : Ctx) (s : Store) (addrs : L
     · cases h
     · rename_i s2 del2 hr
       cases h
-      exact ⟨⟨_, _, s2, del2, by simpa using hnf, hr, rfl⟩⟩
+      exact ⟨⟨_, _, _, s2, del2, by simpa using hnf, hr, rfl⟩⟩
 
 /-- what RemoveRelevantTx does to the credits / debits, the unmined credits and the id-keyed buckets -/
 structure Rrt (limit : Nat) (s : Store) (addrs : List Addr) (o : StepOut) : Prop where
@@ -142,17 +152,19 @@ structure Rrt (limit : Nat) (s : Store) (addrs : List Addr) (o : StepOut) : Prop
 
 theorem removeRelevantTx_spec (limit : Nat) (c : Ctx) (s : Store) (addrs : List Addr) (o : StepOut)
     (hne : addrs ≠ []) (h : removeRelevantTx limit c s addrs = some o) : Rrt limit s addrs o := by
-  obtain ⟨uh, del1, s2, del2, hnf, hr, rfl⟩ := (removeRelevantTx_pipeline limit c s addrs o hne h).ex
+  obtain ⟨uh, del1, del3, s2, del2, hnf, hr, rfl⟩ := (removeRelevantTx_pipeline limit c s addrs o hne h).ex
   refine ⟨⟨(removeUnminedTxs c.own (removeRelevantUnminedCredit s addrs).1 addrs uh).1, ?_, ?_, rfl, hnf⟩, ?_, ?_⟩
-  · rw [unminedTxs_proj cd (fun _ _ => rfl), unminedCredit_cd]
+  · rw [unminedTxs_proj cd (fun _ _ => rfl) (fun _ _ => rfl), unminedCredit_cd]
   · show cd (checkBlockRecords s2 del2) = _
-    rw [blockRecords_proj cd (fun _ _ => rfl), minedTxs_proj cd (fun _ _ => rfl) c _ addrs _ (s2, del2) hr]
+    rw [blockRecords_proj cd (fun _ _ => rfl), minedTxs_proj cd (fun _ _ => rfl) c _ addrs _ (s2, del2) hr,
+        unminedTxs_proj cd (fun _ _ => rfl) (fun _ _ => rfl)]
   · show (checkBlockRecords s2 del2).pendCred = _
     rw [blockRecords_proj Store.pendCred (fun _ _ => rfl),
-        minedTxs_proj Store.pendCred (fun _ _ => rfl) c _ addrs _ (s2, del2) hr, scan_pendCred,
-        unminedTxs_proj Store.pendCred (fun _ _ => rfl), unminedCredit_pendCred]
+        minedTxs_proj Store.pendCred (fun _ _ => rfl) c _ addrs _ (s2, del2) hr,
+        unminedTxs_proj Store.pendCred (fun _ _ => rfl) (fun _ _ => rfl), scan_pendCred,
+        unminedTxs_proj Store.pendCred (fun _ _ => rfl) (fun _ _ => rfl), unminedCredit_pendCred]
   · show core (checkBlockRecords s2 del2) = _
     rw [blockRecords_proj core (fun _ _ => rfl), minedTxs_proj core (fun _ _ => rfl) c _ addrs _ (s2, del2) hr,
-        scan_core, unminedTxs_proj core (fun _ _ => rfl), unminedCredit_core]
+        unminedTxs_proj core (fun _ _ => rfl) (fun _ _ => rfl), scan_core, unminedTxs_proj core (fun _ _ => rfl) (fun _ _ => rfl), unminedCredit_core]
 
 end MW.Lemmas.RemoveStep
